@@ -161,8 +161,13 @@ DataVerdict ==
       [] Ev.e = "SchemaDump" -> DumpVerdict
       [] OTHER -> {}
 
+\* "Fixture": the file of a reader scenario was written without faults (every call of the write history
+\* reported OK -- checked on the k = 0 execution, which carries the full history); the event carries the
+\* schema and the table Writer.tla promised for that history (MC_AllocGen), so the history need not be
+\* replayed in every execution.
 Verdict2 ==
-    IF IsCall THEN (LET p == ProtoVerdict IN IF p # {} THEN p ELSE IF Owed THEN DataVerdict ELSE {})
+    IF Ev.e = "Fixture" THEN (IF wst = "none" THEN {} ELSE {"harness:fixture-twice"})
+    ELSE IF IsCall THEN (LET p == ProtoVerdict IN IF p # {} THEN p ELSE IF Owed THEN DataVerdict ELSE {})
     ELSE CASE Ev.e \in {"File", "SameBytes", "Open", "Chunk"} -> Verdict        \* read-back of a closed writer's file: WriterTrace
            [] Ev.e = "Fault" -> {"fault:" \o (IF Ev.kind \in FaultKinds \ {"none"} THEN Ev.kind ELSE "crash")}
            [] Ev.e = "End" -> IF Ev.leak THEN {"fault:leak"}
@@ -203,7 +208,10 @@ SchemaApply ==
       [] OTHER -> UNCHANGED sch
 
 Apply2 == IF IsCall THEN ProtoApply /\ WriterApply /\ ReaderApply /\ SchemaApply
-          ELSE UNCHANGED <<wvars, avars, rd, sch>>
+          ELSE IF Ev.e = "Fixture"
+               THEN /\ schema' = Ev.cols /\ done' = Ev.table /\ cur' = EmptyCols(Ev.cols) /\ wst' = "closed"
+                    /\ UNCHANGED <<avars, rd, sch>>
+               ELSE UNCHANGED <<wvars, avars, rd, sch>>
 
 \* ---- statistics: which outcome shapes were seen (evidence only)
 Bump(s) ==
